@@ -7,7 +7,8 @@ model computes, so for these functions the tie between model and code is a proof
 What is translated (anything else raises Fail, which the caller reports as a broken tie):
   values       int -> Z, bool -> bool, bytes -> list Z, tuples / dataclass constructor calls -> tuples (fields in the
                order fixed by the configuration), Enum members -> their integer value, Enum(x) -> x guarded by membership
-  expressions  + - * // % ** << >> | & ^ ~, unary -, not, and/or on booleans, comparison chains, conditional expressions,
+  expressions  + - * // % ** << >> | & ^ ~ (a chain of | is put into a normal form: operands ordered by their constant left
+               shift), unary -, not, and/or on booleans, comparison chains, conditional expressions,
                min / max / int / bool / len, int.from_bytes(.., 'big'[, signed=True]), x.to_bytes(n, 'big'[, signed=True])
                (guarded by the range in which Python does not raise OverflowError), constant slices and indices of byte
                strings, byte-string concatenation, constant folding of literal sub-expressions (a float result is accepted
@@ -453,6 +454,40 @@ class _Fn:
             if isinstance(e.op, ast.Invert) and ty == "Z":
                 return f"(Z.lnot {t})", "Z", effs
             self.fail(e, "unary operator / operand type")
+        if isinstance(e, ast.BinOp) and isinstance(e.op, ast.BitOr):
+            # a chain of | is flattened and its operands are ordered by the constant amount they are shifted left
+            # (descending, stable): | on integers is associative and commutative, so this normal form has the same value
+            # and the proofs do not depend on the order in which the source lists the fields
+            ops = []
+
+            def flat(n):
+                if isinstance(n, ast.BinOp) and isinstance(n.op, ast.BitOr):
+                    flat(n.left)
+                    flat(n.right)
+                else:
+                    ops.append(n)
+            flat(e)
+
+            def shift_of(n):
+                k = 0
+                while isinstance(n, ast.BinOp) and isinstance(n.op, ast.LShift) and self.nonneg(n.right):
+                    k += self.litint(n.right, None)
+                    n = n.left
+                return k
+            parts = []
+            for n in ops:
+                t, ty, ef = self.expr(n, vars_)
+                if ty == "bool":
+                    t, ty = f"(b2z {t})", "Z"
+                if ty != "Z":
+                    self.fail(e, "operand types")
+                parts.append((shift_of(n), t, ef))
+            effs = [x for _, _, ef in parts for x in ef]
+            parts.sort(key=lambda x: -x[0])
+            acc = parts[0][1]
+            for _, t, _ in parts[1:]:
+                acc = f"(Z.lor {acc} {t})"
+            return acc, "Z", effs
         if isinstance(e, ast.BinOp):
             a, ta, ea = self.expr(e.left, vars_)
             b, tb, eb = self.expr(e.right, vars_)
